@@ -307,6 +307,9 @@ def run_check(modname: str, tier: str, replay_path: str | None = None) -> int:
 		return EXIT_OK
 
 	budget = dict(mod.BUDGET[tier])
+	scale = float(os.environ.get('VERIF_BUDGET_SCALE', '1'))
+	if scale != 1:
+		budget = {k: (type(v)(v * scale) if isinstance(v, (int, float)) and k not in ('shards', 'batch') else v) for k, v in budget.items()}
 	nshards = int(os.environ.get('VERIF_SHARDS', budget.get('shards', 16)))
 	excluded = sorted({e['exclude_flag'] for e in known if e.get('status') == 'known' and e.get('exclude_flag')})
 	violations: list[dict] = []
